@@ -39,6 +39,7 @@ RunResult run_hist(const Plan &p, EventLog &log, RunStats &stats, Progress *prog
     {
         World w(cfg, log, stats);
         w.profile = (int)p.knob("profile", 0);
+        w.wide = p.knob("wide", 0) != 0;
         if (prog) w.live_judged = &prog->judged;
         try {
             for (size_t i = 0; i < p.steps.size(); i++) {
